@@ -28,4 +28,35 @@ META = {
                 "model tied to code on exercised inputs and by the regenerated order table.",
         "technique": "Coq proof (invariant over histories; invariant of an interleaving relation) + regenerated table + correspondence + stress search",
     },
+    "C03": {
+        "text": "Theorem C03_value_roundtrip (Coq, closed): for every well-formed AMQP value of any depth and size, decoding the "
+                "encoder's bytes followed by arbitrary bytes returns the value and exactly the rest, with no decoder mode left over. "
+                "Encoder/decoder models mirror ser.rs/de.rs function by function; format codes and size constants are regenerated from "
+                "the source and proved equal to the specification's (Tie_FormatCodes). The models are run against to_vec/from_slice on "
+                "generated values, their corruptions and hostile inputs every run; from_slice(to_vec(v)) == v is checked on the "
+                "implementation for values and for every typed protocol item.",
+        "design_ref": "DESIGN.md section 4, C03",
+        "note": "Trusted: Coq kernel, extraction, translator; model tied to the code on exercised inputs. Known finding: arrays whose elements "
+                "are null/list/map/array/described do not round-trip (witness theorem in Props/C03.v). Typed items: tested, not proved.",
+        "technique": "Coq proof (nested induction over the value type) + regenerated tables + extracted-model-vs-implementation correspondence",
+    },
+    "C04": {
+        "text": "Theorems (Coq, closed): the decoder model never yields Panic for any bytes/state/fuel; fuel length+1 always suffices "
+                "(recursion only after consuming a byte; loops bounded by capped counts); a successful decode returns a suffix. The "
+                "unbounded recursion depth is proved as a refutation with a parametric witness (known finding), as observed on the "
+                "implementation in a child process. Panics, peak allocation and re-decode stability are measured on the implementation "
+                "for corrupted encodings, hostile catalogue and exhaustive short strings every run.",
+        "design_ref": "DESIGN.md section 4, C04",
+        "note": "Trusted as C03. Known findings: stack depth grows with nesting; an array of zero-width elements allocates ~5 MB from 10 bytes.",
+        "technique": "Coq proof (induction on fuel with a length measure) + correspondence + allocation/stack probes on the implementation",
+    },
+    "C20": {
+        "text": "Theorem C20_size_is_length (Coq, closed): the SizeSerializer model and the Serializer model agree (size = length, and they "
+                "fail together) for every value in every serializer position, except arrays with described elements (refutation witness; "
+                "known finding). serialized_size vs to_vec length, slice-vs-io reader results and to_value/from_value are compared on "
+                "the implementation every run.",
+        "design_ref": "DESIGN.md section 4, C20",
+        "note": "Trusted as C03. The io-reader and value-tree parts are differential tests on the implementation, not theorems.",
+        "technique": "Coq proof (nested induction) + correspondence + differential testing of the entry points",
+    },
 }
